@@ -13,6 +13,9 @@ VARIANTS = {
     'A': ("{}", "x = Int(2)\n    y = Int(2)"),
     'B': ("{}", "x = Int(2, endianness='little')\n    y = Int(2, endianness='little')"),
     'A4': ("{}", "x = Int(4)\n    y = Int(4)"),
+    # same field lines, same names, same sizes: only the class-wide byte order differs
+    'Ale': ("{'endianness': 'little'}", "x = Int(2)\n    y = Int(2)"),
+    'Anale': ("{'endianness': 'little', 'annotate': False}", "x = Int(2)\n    y = Int(2)"),
     # different field lists
     'C': ("{}", "x = Int(1)\n    y = Int(4)\n    z = Data(2)"),
     'D': ("{}", "x = Int(2)\n    n = Int(1)\n    d = Data(n)"),
@@ -162,7 +165,7 @@ def reference(d, variant, k):
     path = os.path.join(d, 'ref_%s_%d.py' % (variant, os.getpid()))
     with builtins.open(path, 'w') as f:
         f.write("from bisturi.packet import Packet\nfrom bisturi.field import Int, Data\n"
-                f"class R(Packet):\n    __bisturi__ = {{'generate_for_pack': False, 'generate_for_unpack': False}}\n    {body}\n")
+                f"class R(Packet):\n    __bisturi__ = dict({conf}, generate_for_pack=False, generate_for_unpack=False)\n    {body}\n")
     spec = importlib.util.spec_from_file_location('ref_%s' % variant, path)
     mod = importlib.util.module_from_spec(spec)
     spec.loader.exec_module(mod)
